@@ -196,7 +196,12 @@ func Compare(truth []TruthCommit, got []Parsed) []Mismatch {
 	}
 	for k := 1; k < len(gotOrder); k++ {
 		if gotOrder[k] < gotOrder[k-1] {
-			add("order", "commit %s is listed after %s; the log has them the other way round", truth[gotOrder[k]].Rev, truth[gotOrder[k-1]].Rev)
+			sig := "order"
+			if len(truth) > 1000 {
+				sig = "order/history-over-1000-commits"
+			}
+			add(sig, "commit %s (entry %d of the list, commit %d of %d in `git log --reverse`) is listed after %s (commit %d of the log); the log has them the other way round",
+				truth[gotOrder[k]].Rev, k, gotOrder[k]+1, len(truth), truth[gotOrder[k-1]].Rev, gotOrder[k-1]+1)
 			break
 		}
 	}
